@@ -115,3 +115,57 @@ def atomicSchedule : List Bool :=
   List.replicate 6 true ++ List.replicate 7 false ++ List.replicate 9 true
 
 end BqVerif.FineWake
+
+namespace BqVerif.FineWake
+
+/-! ## The same two threads with one lock around `_process_await` and `_handle_result`
+    (the proposed patch): a thread that wants the lock while the other holds it does not move. -/
+
+inductive Holder where
+  | free
+  | mainT
+  | incT
+deriving DecidableEq, Repr
+
+structure LState where
+  s : FState := {}
+  lock : Holder := .free
+deriving DecidableEq, Repr
+
+def stepMainL (l : LState) : LState :=
+  match l.s.main with
+  | .pa 0 _ =>                                   -- acquire on entry
+    if l.lock = .incT then l else { s := stepMain l.s, lock := .mainT }
+  | .pa 5 _ => { s := stepMain l.s, lock := .free }     -- release after the last line
+  | _ => { l with s := stepMain l.s }
+
+def stepIncL (l : LState) : LState :=
+  match l.s.inc with
+  | .hr 0 =>
+    if l.lock = .mainT then l
+    else
+      let s' := stepInc l.s
+      { s := s', lock := if s'.inc = .done then .free else .incT }
+  | .done => l
+  | _ =>
+    let s' := stepInc l.s
+    { s := s', lock := if s'.inc = .done then .free else l.lock }
+
+def runL (l : LState) : List Bool → LState
+  | [] => l
+  | true :: t => runL (stepMainL l) t
+  | false :: t => runL (stepIncL l) t
+
+def addNew (seen : List LState) (xs : List LState) : List LState :=
+  xs.foldl (fun acc x => if acc.contains x then acc else acc ++ [x]) seen
+
+/-- breadth-first closure of a set of states under both step functions -/
+def closure : Nat → List LState → List LState
+  | 0, seen => seen
+  | fuel + 1, seen =>
+    let next := addNew seen (seen.flatMap (fun x => [stepMainL x, stepIncL x]))
+    if next.length = seen.length then seen else closure fuel next
+
+def reach : List LState := closure 64 [{}]
+
+end BqVerif.FineWake
